@@ -653,6 +653,17 @@ def _native_strings(tier="quick", seed=0):
     got_r = [sh_.text_frame.text for sh_ in sl_r.shapes if sh_.has_text_frame] + [sl_r.shapes[-1].table.cell(r_, c_).text for r_, c_ in ((0, 0), (0, 1), (1, 0), (1, 1))]
     if got_r != want_:
         bad = bad or "four shapes and four cells without a text body, each assigned its own text: after save / re-open they read %r" % (got_r,)
+    # a cell's text is what was assigned whatever the cell's merge state: merge origin, spanned cell, cell freed by a split
+    t_m = sl_n.shapes.add_table(3, 3, Emu(0), Emu(0), Emu(300), Emu(300)).table
+    t_m.cell(0, 0).merge(t_m.cell(1, 1))
+    for (r_, c_), what_ in (((0, 0), "merge origin"), ((0, 1), "spanned cell"), ((1, 1), "spanned cell"), ((2, 2), "free cell")):
+        evals += 1
+        t_m.cell(r_, c_).text = "in %d%d\nline" % (r_, c_)
+        if t_m.cell(r_, c_).text != "in %d%d\nline" % (r_, c_):
+            bad = bad or "%s (%d,%d): cell.text = %r reads %r" % (what_, r_, c_, "in %d%d\nline" % (r_, c_), t_m.cell(r_, c_).text)
+    t_m.cell(0, 0).split()
+    if t_m.cell(0, 1).text != "in 01\nline":
+        bad = bad or "cell (0,1) after the merge was split: text reads %r, it was assigned 'in 01\\nline'" % t_m.cell(0, 1).text
     ob1 = {"name": "C04.native.four_levels", "base": "C04.native.four_levels", "kind": "bounded", "status": "refuted" if bad else "discharged", "backend": "native", "time": 0, "path": 0}
     if bad:
         ob1["replay"] = {"confirmed": True, "witness_class": "text-roundtrip", "detail": bad}
